@@ -3,6 +3,5 @@ CONSTANTS
   Req = {r1, r2, r3}
   MarkBeforeSend = FALSE
 SPECIFICATION Spec
-CONSTRAINT Bound
 INVARIANTS NoStaleMark
 CHECK_DEADLOCK FALSE
